@@ -18,13 +18,10 @@ def MILS2MM {α : Type} [Div α] [OfNat α 127] [OfNat α 5000] : α := (127 / 5
 /-- `OZ2MM = 0.034798` -/
 def OZ2MM {α : Type} [Div α] [OfNat α 17399] [OfNat α 500000] : α := (17399 / 500000)
 
-/-- `T_REF = 20` -/
-def T_REF {α : Type} [OfNat α 20] : α := 20
-
 /-- `sysloss.utils.trace_res(*, w1_mm, w2_mm, l_mm, t_mm, rho, temp, tcr)`; parameters in the documented order -/
 def traceRes {α : Type} [Add α] [Sub α] [Mul α] [Div α] [OfNat α 1] [OfNat α 2] [OfNat α 20] [OfNat α 1000] (w1_mm w2_mm l_mm t_mm rho temp tcr : α) : α :=
   let a : α := (((1 / 2) * (w1_mm + w2_mm)) * t_mm) / 1000   -- a = 0.5 * (w1_mm + w2_mm) * t_mm / 1000.0
-  ((rho * l_mm) / a) * (1 + (tcr * (temp - T_REF)))   -- return rho * l_mm / a * (1 + tcr * (temp - T_REF))
+  ((rho * l_mm) / a) * (1 + (tcr * (temp - 20)))   -- return rho * l_mm / a * (1 + tcr * (temp - 20.0))
 
 /-- default of `trace_res(rho=RHO)` -/
 def traceRes.default_rho {α : Type} [Div α] [OfNat α 431] [OfNat α 25000000000] : α := RHO
@@ -38,7 +35,7 @@ def traceRes.default_tcr {α : Type} [Div α] [OfNat α 193] [OfNat α 50000] : 
 /-- `sysloss.utils.plane_res(*, w, l, t_mm, rho, temp, tcr)`; parameters in the documented order -/
 def planeRes {α : Type} [Add α] [Sub α] [Mul α] [Div α] [OfNat α 1] [OfNat α 20] [OfNat α 1000] (w l t_mm rho temp tcr : α) : α :=
   let rs : α := rho / (t_mm / 1000)   -- rs = rho / (t_mm / 1000.0)
-  ((rs * l) / w) * (1 + (tcr * (temp - T_REF)))   -- return rs * l / w * (1 + tcr * (temp - T_REF))
+  ((rs * l) / w) * (1 + (tcr * (temp - 20)))   -- return rs * l / w * (1 + tcr * (temp - 20.0))
 
 /-- default of `plane_res(rho=RHO)` -/
 def planeRes.default_rho {α : Type} [Div α] [OfNat α 431] [OfNat α 25000000000] : α := RHO
